@@ -124,13 +124,29 @@ fn build_item(i: &Item) -> P {
             metavar,
             adjacent,
         } => {
-            let n = named(&i.names, &i.help);
+            // the help text goes on the name (`long(..).help(..).argument(..)`) or, for every other
+            // item, on the finished argument parser (`..argument(..).adjacent().help(..)`): both
+            // builder orders make the same parser
+            let help_last = id % 2 == 0 && i.help.is_some();
+            let n = if help_last {
+                named(&i.names, &None)
+            } else {
+                named(&i.names, &i.help)
+            };
             let mv = leak(metavar);
             macro_rules! arg {
                 ($t:ty, $f:expr) => {{
                     let mut a = n.argument::<$t>(mv);
                     if *adjacent {
                         a = a.adjacent();
+                    }
+                    if help_last {
+                        let h = i.help.as_ref().unwrap();
+                        a = if wants_doc(h) {
+                            a.help(help_doc(h))
+                        } else {
+                            a.help(h.as_str())
+                        };
                     }
                     a.map(move |x| V::field(id, $f(x))).boxed()
                 }};
